@@ -799,7 +799,7 @@ func (e *balEngine) block(pending []*balTx, dt uint64) {
 			if (bt.kind == bTick || bt.kind == bDirectEpoch) && r.Prop == "C09" {
 				rule = "C09/tick-accepted-what-must-be-refused"
 			}
-			r.Violation(rule, "", "%s by %s succeeded", bt.desc, signerNames(bt.signers))
+			r.ViolationSynced(rule, "", "%s by %s succeeded", bt.desc, signerNames(bt.signers))
 			// follow the implementation so that the other monitors still see it
 			if apply == nil {
 				_, evs, apply = e.forceEffects(bt)
@@ -807,7 +807,12 @@ func (e *balEngine) block(pending []*balTx, dt uint64) {
 		case exp == mustSucceed && !took:
 			if bt.kind == bTick || bt.kind == bDirectEpoch {
 				if !bt.gasCut {
-					r.Violation("C09/tick-refused", "", "%s refused: %s", bt.desc, aer.FaultException)
+					if r.Prop == "C09" && !r.shadow {
+						r.Violation("C09/tick-refused", "", "%s refused: %s", bt.desc, aer.FaultException)
+					}
+					// for the other properties a refused tick is a refused call like
+					// any other: nothing changed, the model stays in sync, the run goes on
+					r.Count("foreign_refusal_not_judged.C09/tick-refused")
 				}
 			} else {
 				// no statement of C01/C02/C09 obliges these to succeed; counted
